@@ -99,6 +99,8 @@ pub struct Env<SC: StarkGenericConfig + 'static, EF> {
     d: usize,
     prover: BatchStarkProver<SC>,
     cpd: CircuitProverData<SC>,
+    /// prover data of the SAME circuit whose per-table lookup contexts are emptied: a prover that proves no bus at all
+    cpd_no_bus: CircuitProverData<SC>,
     honest: Traces<EF>,
     /// (name, prover data, honest traces) of DIFFERENT circuits of the same shape
     foreign: Vec<(&'static str, CircuitProverData<SC>, Traces<EF>)>,
@@ -147,23 +149,29 @@ macro_rules! prim_env {
     ($fname:ident, $SC:ty, $cfg:path, $EF:ty, $D:literal) => {
         fn $fname(pl: usize, al: usize) -> Result<Env<$SC, $EF>, String> {
             let packing = TablePacking::new(pl, al);
-            let mk = |variant: usize| -> Result<(CircuitProverData<$SC>, Traces<$EF>), String> {
+            let mk_b = |variant: usize, no_bus: bool| -> Result<(CircuitProverData<$SC>, Traces<$EF>), String> {
                 let (c, pubs) = alu_circuit::<$EF>(variant);
                 let (ad, pc, npc) = get_airs_and_degrees_with_prep::<$SC, _, $D>(&c, &packing, &[], &[], ConstraintProfile::Standard).map_err(|e| format!("{e:?}"))?;
                 let (airs, degs): (Vec<_>, Vec<usize>) = ad.into_iter().unzip();
-                let pd = ProverData::from_airs_and_degrees(&$cfg(), &airs, &degs);
+                let mut pd = ProverData::from_airs_and_degrees(&$cfg(), &airs, &degs);
+                if no_bus {
+                    pd.common.lookups = vec![Default::default(); airs.len()];
+                }
                 let mut r = c.runner();
                 r.set_public_inputs(&pubs).map_err(|e| format!("{e:?}"))?;
                 let t = r.run().map_err(|e| format!("{e:?}"))?;
                 Ok((CircuitProverData::new(pd, pc, npc), t))
             };
+            let mk = |variant: usize| mk_b(variant, false);
             let (cpd, honest) = mk(0)?;
+            let (cpd_no_bus, _) = mk_b(0, true)?;
             let mut foreign = Vec::new();
             for (i, n) in FOREIGN.iter().enumerate() {
                 let (c, t) = mk(i + 1)?;
                 foreign.push((*n, c, t));
             }
             Ok(Env {
+                cpd_no_bus,
                 d: $D,
                 prover: BatchStarkProver::new($cfg()).with_table_packing(packing.clone()),
                 cpd,
@@ -274,25 +282,31 @@ fn kb_npo_mut(t: &mut Traces<KB4>, target: Option<&str>, cell: Option<usize>, rn
 
 fn env_kb4() -> Result<Env<KoalaBearConfig, KB4>, String> {
     let packing = TablePacking::new(1, 1);
-    let mk = |variant: usize| -> Result<(CircuitProverData<KoalaBearConfig>, Traces<KB4>), String> {
+    let mk_b = |variant: usize, no_bus: bool| -> Result<(CircuitProverData<KoalaBearConfig>, Traces<KB4>), String> {
         let (c, pubs) = npo_circuit(variant);
         let npo_prep: Vec<Box<dyn NpoPreprocessor<KB>>> = vec![Box::new(Poseidon2Preprocessor), Box::new(RecomposePreprocessor::default())];
         let mut air_builders = poseidon2_air_builders::<_, 4>();
         air_builders.extend(recompose_air_builders(1, false));
         let (ad, pc, npc) = get_airs_and_degrees_with_prep::<KoalaBearConfig, _, 4>(&c, &packing, &npo_prep, &air_builders, ConstraintProfile::Standard).map_err(|e| format!("{e:?}"))?;
         let (airs, degs): (Vec<_>, Vec<usize>) = ad.into_iter().unzip();
-        let pd = ProverData::from_airs_and_degrees(&config::koala_bear(), &airs, &degs);
+        let mut pd = ProverData::from_airs_and_degrees(&config::koala_bear(), &airs, &degs);
+        if no_bus {
+            pd.common.lookups = vec![Default::default(); airs.len()];
+        }
         let mut r = c.runner();
         r.set_public_inputs(&pubs).map_err(|e| format!("{e:?}"))?;
         let t = r.run().map_err(|e| format!("{e:?}"))?;
         Ok((CircuitProverData::new(pd, pc, npc), t))
     };
+    let mk = |variant: usize| mk_b(variant, false);
     let (cpd, honest) = mk(0)?;
+    let (cpd_no_bus, _) = mk_b(0, true)?;
     let (fc, ft) = mk(1)?;
     let mut prover = BatchStarkProver::new(config::koala_bear()).with_table_packing(packing.clone());
     prover.register_poseidon2_table::<4>(Poseidon2Config::KOALA_BEAR_D4_W16);
     prover.register_recompose_table::<4>(false);
     Ok(Env {
+        cpd_no_bus,
         d: 4,
         prover,
         cpd,
@@ -500,6 +514,22 @@ fn apply<SC: StarkGenericConfig + 'static, EF>(env: &Env<SC, EF>, proof: &mut Ba
             o => Err(format!("unknown op {o}")),
         };
     }
+    if f == "stark_common.lookups" {
+        // the per-table lookup contexts the proof was proven against; `verify_all_tables` derives its own from the AIRs
+        let n = proof.stark_common.lookups.len();
+        return match a.op.as_str() {
+            "empty_all" => {
+                proof.stark_common.lookups = vec![Default::default(); n];
+                Ok(format!("stark_common.lookups := {n} empty contexts"))
+            }
+            "pop" => proof.stark_common.lookups.pop().map(|_| "stark_common.lookups pop".to_string()).ok_or("empty".into()),
+            "clear" => {
+                proof.stark_common.lookups.clear();
+                Ok("stark_common.lookups := []".into())
+            }
+            o => Err(format!("unknown op {o}")),
+        };
+    }
     if let Some(sub) = f.strip_prefix("stark_common.") {
         let g = proof.stark_common.preprocessed.as_mut().ok_or("no preprocessed data")?;
         let i = a.index.unwrap_or(0);
@@ -620,6 +650,15 @@ where
                 let e = read_rows(&env.cpd.primitive_columns[1], n);
                 let i = bump_cell(&mut traces.public_trace.values, Some(&e), case.cell, rng)?;
                 what = format!("Public row {i} value += 1");
+            }
+            "invalid_public_cell_unchecked_bus" => {
+                // only the witness bus is violated, and the prover proves no bus at all (its lookup contexts are empty, and so
+                // are those of the proof's stark_common): the verifier must derive the bus from the AIRs it rebuilds
+                let n = traces.public_trace.values.len();
+                let e = read_rows(&env.cpd.primitive_columns[1], n);
+                let i = bump_cell(&mut traces.public_trace.values, Some(&e), case.cell, rng)?;
+                cpd = &env.cpd_no_bus;
+                what = format!("Public row {i} value += 1, proven with emptied lookup contexts");
             }
             "invalid_npo" => {
                 let m = env.npo_mut.ok_or("configuration has no non-primitive table")?;
@@ -951,6 +990,7 @@ pub fn singles(config: &str) -> Vec<Alter> {
     for i in 0..ninst {
         v.extend([ali("stark_common.degree_bits", "inc", i), ali("stark_common.degree_bits", "dec", i), ali("stark_common.width", "inc", i), ali("stark_common.instances", "none", i)]);
     }
+    v.extend([al("stark_common.lookups", "empty_all"), al("stark_common.lookups", "pop"), al("stark_common.lookups", "clear")]);
     v.extend([al("stark_common.matrix_to_instance", "swap"), al("stark_common.instances", "pop"), alv("non_primitives", "add", json!("recompose")), alv("non_primitives", "add", json!("unknown/op"))]);
     if config == "kb_d4_npo" {
         v.push(al("non_primitives", "swap"));
@@ -966,7 +1006,7 @@ pub fn singles(config: &str) -> Vec<Alter> {
 }
 
 pub fn traces_of(config: &str) -> Vec<&'static str> {
-    let mut t = vec!["honest", "invalid_alu_cell", "invalid_const", "invalid_public_cell"];
+    let mut t = vec!["honest", "invalid_alu_cell", "invalid_const", "invalid_public_cell", "invalid_public_cell_unchecked_bus"];
     if config == "kb_d4_npo" {
         t.push("invalid_npo");
     }
